@@ -4,7 +4,19 @@ import hashlib, json, os, re, subprocess, sys, time
 VERIF = os.path.dirname(os.path.dirname(os.path.abspath(__file__)))
 REPO = os.environ.get("VERIF_REPO", "/repo")
 SPEC = os.path.join(VERIF, "spec")
-WORK = os.path.join(VERIF, ".work")
+# scratch space of this process (checks may run side by side): /verif/.work/p<pid>, removed at exit
+WORK = os.path.join(VERIF, ".work", "p%d" % os.getpid())
+os.makedirs(WORK, exist_ok=True)
+
+
+def _cleanup_work():
+    import shutil
+    if not os.environ.get("VERIF_KEEP"):
+        shutil.rmtree(WORK, ignore_errors=True)
+
+
+import atexit
+atexit.register(_cleanup_work)
 BUILD = os.path.join(VERIF, ".build")
 GV = os.path.join(BUILD, "target", "debug", "gv")
 TLA_CP = "/opt/veriftools/tla/tla2tools.jar:/opt/veriftools/tla/CommunityModules-deps.jar"
